@@ -5,6 +5,7 @@ CONSTANT Vals <- V03
 CONSTANT D = 3
 CONSTANT Fns <- FnsUndW
 INVARIANT RefinesDefinition
+INVARIANT NbrEnumerationEqualsDefinition
 INVARIANT PrefixInv
 INVARIANT InUnitInterval
 INVARIANT ZeroWhenNoTriangleOrDegLT2
